@@ -257,8 +257,9 @@ func runSequence(idx int, sk []skOp, seed int64) *seqRun {
 			// the real contract the ledger holds has the sizes the model expects at this point
 			wantFS, wantCap := uint64(*op.Sz0)*s.scale*rhp4.SectorSize, uint64(*op.Cap0)*s.scale*rhp4.SectorSize
 			if s.cur.Filesize != wantFS || s.cur.Capacity != wantCap {
-				s.infraf("operation %d: contract has filesize %d capacity %d, the model expects %d / %d (no trace line was refused so far)",
-					i, s.cur.Filesize, s.cur.Capacity, wantFS, wantCap)
+				// an earlier result broke the size rules and consensus let it pass: the trace specification
+				// refuses that line; if it refuses none, main reports the early stop as an infrastructure failure
+				s.abort = fmt.Sprintf("operation %d: contract has filesize %d capacity %d, the model expects %d / %d", i, s.cur.Filesize, s.cur.Capacity, wantFS, wantCap)
 				break
 			}
 			s.st.sizeChecks++
